@@ -311,6 +311,18 @@ ADDENDA3 = {
 
 NOT_YET = "check not built yet in this round (planned, see DESIGN.md section 4)"
 
+ADDENDA4 = {
+    "C01": " Round 4: one of the fresh processes of the cross-process comparison runs with the host's warnings turned into errors (pattern literals the host compiles with a FutureWarning).",
+    "C05": " Round 4: family e7 - the error value is an object with a _str_ member that fails or writes to the log (nothing renders an error value on its way to the handler), and fixed programs whose error value holds itself.",
+    "C11": " Round 4: a module object is a snapshot of the module's public definitions at the binding (ModOf / NowVars in Session.tla), generated modules reassign a public definition, importers assign to members of their module object (command mset); Modules_devsnap.cfg (object made once per module) must give TLC a counterexample.",
+    "C12": " Round 4: site class rawbig (a site that walks the raw host container only above a size), invariants SmallBlind / BigOnly (Order_bigraw.cfg), four pools of 120 / 1 100 members, sorted-head oracle for stack-trace excerpts; maps whose values tie (1 and 1.0) through every enumeration form and function in 24 construction orders.",
+    "C13": " Round 4: the host's own streams (an interpreter nobody redirected) and a decimal at the edge of the range as values of the wide pool, with the partners they need.",
+    "C14": " Round 4: redundant parentheses directly behind a sign (three known findings: the parser folds sign and numeral into one literal).",
+    "C18": " Round 4: split / lines / words called again after the caller changed their result in place.",
+    "C19": " Round 4: every call whose result is a collection is repeated after the caller changed that result in place (the first 40 calls of every function, then every 6th).",
+    "C20": " Round 4: a module's syntax fault must carry the module's name and line whatever class of error reports it.",
+}
+
 
 def main():
     checks = []
@@ -319,7 +331,7 @@ def main():
         if pid not in CHECKS:
             continue
         mods, tech, text, note, ref = CHECKS[pid]
-        text = text + ADDENDA.get(pid, "") + ADDENDA3.get(pid, "")
+        text = text + ADDENDA.get(pid, "") + ADDENDA3.get(pid, "") + ADDENDA4.get(pid, "")
         if pid == "C03":
             mods = mods + ["Env_Trace.tla"]
             text = text + C03_EXTRA
